@@ -95,11 +95,12 @@ CLAIMED = {
             'for every table, string and strictness; error message texts are checked by the oracle.',
             'Blank strings are outside.', 'DESIGN.md section 4 C11'),
     'C14': ('Coq proof (validate_symbols / the constructor report an error iff the table is ambiguous by the order-free rule, '
-            'although the code uses an order-sensitive last-writer-wins dictionary) + random tables in every entry order and in '
-            'three representations',
+            'although the code uses an order-sensitive last-writer-wins dictionary; in an accepted table every stored word sequence has one '
+            'owner, whatever the names hold; on aliases without parentheses the alias normalisation is lower / strip / split / join) + random '
+            'tables in every entry order and in three representations, and an own stream of parenthesised aliases',
             'Theorem for every table of valid symbols; representation independence is structural in the model and decided by '
             'the oracle comparing all queries across the three representations.',
-            'Aliases with parentheses / non-text aliases are outside this property.', 'DESIGN.md section 4 C14'),
+            'Non-text aliases are outside this property; aliases with parentheses are outside its quantifier (exercised by an own stream).', 'DESIGN.md section 4 C14'),
     'C05': ('Coq proof: over a table Licensing() accepted (or any table with valid keys and unambiguous names) with no operator word in a name, whatever text parses to e, the default '
             'rendering of e (plain or readable) is tokenized and parsed back to e itself by the model of the whole pipeline '
             '(parse_render_parse), likewise every well-formed expression made of the licenses of e (simplify / dedup / combine results); '
